@@ -218,6 +218,9 @@ pub fn plan(prop: &str, tier: &str) -> Option<Plan> {
                 s.push(e2(prop, "big", H_LOW, "look1+mut+ch0+shape2", &[], 3, "chk", 40.0));
                 s.push(e1(prop, "u32", H_GOOD, 0, "look1+mut+ch0+shape", &[], 600, 1, 0, "chk", 40.0));
                 s.push(e1(prop, "u32", H_LOW, 0, "look1+mut+ch0+shape", &[], 300, 1, 0, "chk", 40.0));
+                // PathBuf keys looked up / removed as &Path in four spellings of different byte length
+                s.push(e1(prop, "u32", H_GOOD, 0, "borrow", &[], 130, 1, 0, "chk", 40.0));
+                s.push(e1(prop, "u32", H_LOW, 0, "mut1+shape/borrow", &[], 31, 2, 1, "chk", 40.0));
                 s.push(e1(prop, "u32", H_GOOD, 0, "rmold/rmold/look1+mut1+ch0+iterlite", &["cursor"], 72, 3, 0, "chk", 40.0));
                 s.push(e1(prop, "u32", H_LOW, 0, "rmold/rmold/look1+mut1+ch0+iterlite", &["cursor"], 72, 3, 0, "chk", 40.0));
                 s.push(sweep(prop, "u32", H_GOOD, 100_000, &["cheap"], &[("stride", "3"), ("audit_every", "10000"), ("mix", "1")], "chk", 40.0));
@@ -255,6 +258,10 @@ pub fn plan(prop: &str, tier: &str) -> Option<Plan> {
                 s.push(sweep(prop, "tk", H_GOOD, 200_000, &["cheap"], &[("stride", "8"), ("audit_every", "20000"), ("mix", "1")], "chk", 600.0));
                 for &hk in &HS4 {
                     s.push(e1(prop, "u32", hk, 0, "look1+mut+ch0+shape", &[], if hk == H_CONST { 600 } else { 2500 }, 1, 0, "chk", 900.0));
+                }
+                for &hk in &HS4 {
+                    s.push(e1(prop, "u32", hk, 0, "borrow", &[], 300, 1, 0, "chk", 900.0));
+                    s.push(e1(prop, "u32", hk, 0, "mut1+shape/borrow", &[], 64, 2, 1, "chk", 900.0));
                 }
                 bounds = json!({"E7": "growth path to 10^6 elements (u32 with HGood / HTag; 3*10^4 with the 4-valued HLow, 3*10^3 with HConst, whose probe sequences are linear in the size; 2*10^5 Tk) with a mixed call menu against the reference", "E1": "d<=1 at N=130 (4 hashers x initial capacities {0,1,4,29,200} x {u32,Tk}); d<=2 at N=64; d<=3 at N=31", "E2": "fixpoint over u=6 (HGood,HLow) / u=5 (HConst,HTag) keys; full alphabet at u=3; ZST"});
             }
@@ -641,6 +648,8 @@ pub fn plan(prop: &str, tier: &str) -> Option<Plan> {
                 for x in v.iter_mut() {
                     x.alpha = "mut1+ch0".into();
                     x.extra.insert("refault".into(), "1".into());
+                    // and a continuation that starts with shrink_to_fit whenever the fault left an old table behind
+                    x.extra.insert("shrink_first".into(), "1".into());
                 }
                 v
             };
@@ -652,7 +661,7 @@ pub fn plan(prop: &str, tier: &str) -> Option<Plan> {
                 s.extend(mk(H_GOOD, 33, 20, 6, "asan", false, 45.0));
                 s.extend(mk(H_TAG, 10, 6, 3, "asan", false, 45.0));
                 s.extend(mk(H_GOOD, 12, 12, 1, "chk", true, 45.0));
-                bounds = json!({"recurring": "after every Hash fault of a key-adding call (<=80 states to N=64): 64 further inserts each panicking again in the first element it relocates, every one judged, then the normal continuation", "E4": "family: growth path to N=64 + states directly after one shaping deviation (<=160 states, chk; N=33, <=24 states asan); every op of the C01-style alphabet (class keys) x every callback kind x every crash point; post-fault oracle, a tour of 12 calls, the growth path across the next resize, shrink/clone/drain; per-call continuations for N<=12"});
+                bounds = json!({"recurring": "mut1+ch0 alphabet on <=80 states to N=64: after every Hash fault of a key-adding call 64 further inserts each panicking again in the first element it relocates, every one judged, then the normal continuation; and after every fault that leaves an old table behind a continuation that starts with shrink_to_fit", "E4": "family: growth path to N=64 + states directly after one shaping deviation (<=160 states, chk; N=33, <=24 states asan); every op of the C01-style alphabet (class keys) x every callback kind x every crash point; post-fault oracle, a tour of 12 calls, the growth path across the next resize, shrink/clone/drain; per-call continuations for N<=12"});
             } else {
                 for &hk in &HS4 {
                     s.extend(mk(hk, 64, 240, 8, "chk", false, 900.0));
@@ -745,6 +754,9 @@ pub fn plan(prop: &str, tier: &str) -> Option<Plan> {
                 s.push(set(e2(prop, "u32", H_GOOD, "skey+sshape2", &["cursor"], 4, "chk", 45.0)));
                 s.push(set(e2(prop, "tk", H_LOW, "skey+sshape2", &["cursor"], 3, "chk", 45.0)));
                 s.push(set(e2(prop, "zst", H_GOOD, "skey+sshape2", &["cursor"], 1, "chk", 45.0)));
+                // PathBuf elements looked up / taken as &Path in four spellings, plus the siter block
+                s.push(set(e1(prop, "u32", H_GOOD, 0, "borrow+siter", &["cursor"], 130, 1, 0, "chk", 45.0)));
+                s.push(set(e1(prop, "u32", H_LOW, 0, "skey+sshape/borrow", &["cursor"], 31, 2, 1, "chk", 45.0)));
                 s.extend(pairs("u32", H_GOOD, 40, 120, 4, 45.0));
                 s.extend(pairs("tk", H_LOW, 33, 80, 2, 45.0));
                 s.extend(pairs("zst", H_GOOD, 2, 40, 1, 45.0));
